@@ -370,6 +370,9 @@ class GenV:
         return iter(self.items)
 
 
+_MISSING = object()
+
+
 class RepList:
     """[x] * n for a symbolic n"""
 
@@ -615,6 +618,8 @@ class Interp:
             if n in ("staticmethod", "classmethod", "property"):
                 f.kind = n
             elif n in IGNORED_DECORATORS or n.endswith("setter") or n == "overload":
+                if n in ("lru_cache", "cache"):
+                    f.cached = True
                 if n.endswith("setter") or (isinstance(d, ast.Attribute) and d.attr == "setter"):
                     f.kind = "setter"
             else:
@@ -643,7 +648,8 @@ class Interp:
                     elif isinstance(d, ast.Attribute) and d.attr == "setter":
                         is_setter = True
                     elif n in IGNORED_DECORATORS:
-                        pass
+                        if n in ("lru_cache", "cache"):
+                            fn.cached = True
                     else:
                         fn.decorators.append(d)
                 if is_setter:
@@ -797,7 +803,10 @@ class Interp:
             return self.modular_call(f, c, args, kwargs)
         if key != self.current_target:
             self.inlined.add(key)
-        return self.exec_function(f, args, kwargs)
+        res = self.exec_function(f, args, kwargs)
+        if getattr(f, "cached", False):
+            self.freeze(res)
+        return res
 
     def exec_function(self, f, args, kwargs, pre_bound=None):
         if self.depth > self.max_depth:
@@ -1015,6 +1024,42 @@ class Interp:
             e = e.parent
         return ids
 
+    def dict_key(self, d, key):
+        """the key of `d` that Python would consider equal to `key` (identity, or same hash and __eq__ for instances of
+        repo classes that define them), else _MISSING"""
+        if not isinstance(key, Obj):
+            try:
+                return key if key in d else _MISSING
+            except TypeError:
+                raise Unsupported("unhashable dict key")
+        for k in d:
+            if k is key:
+                return k
+        cls = key.cls
+        if isinstance(cls, RepoClass):
+            eq = cls.lookup(self, "__eq__")
+            hs = cls.lookup(self, "__hash__")
+            if eq is not None:
+                for k in d:
+                    if isinstance(k, Obj) and k.cls is cls:
+                        if hs is not None:
+                            h1 = self.call_repo(hs, [k], {})
+                            h2 = self.call_repo(hs, [key], {})
+                            if not self.truth(self.cmp("==", h1, h2)):
+                                continue
+                        if self.truth(self.call_repo(eq, [key, k], {})):
+                            return k
+        return _MISSING
+
+    def freeze(self, v, depth=0):
+        """results of functools.lru_cache'd functions are shared between callers (and dask workers): mark the arrays
+        so that any in-place update of them becomes a failed frame obligation"""
+        if isinstance(v, SArr):
+            v.frozen = True
+        elif isinstance(v, (tuple, list)) and depth < 3:
+            for x in v:
+                self.freeze(x, depth + 1)
+
     def frame_write(self, obj, name):
         """hook for frame (modifies) checking"""
         if self.loop_stack and isinstance(obj, Obj) and getattr(obj, "_stamp", 0) <= self.loop_stack[-1].start_stamp:
@@ -1223,7 +1268,8 @@ class Interp:
             if isinstance(k, Sym):
                 raise Unsupported("dict store at symbolic key")
             self.frame_write(o, k)
-            o[k] = v
+            kk = self.dict_key(o, k)
+            o[k if kk is _MISSING else kk] = v
         else:
             h = self.stubs.get("__setitem__")
             if h is not None and h(self, o, k, v) is not NotImplemented:
@@ -1722,9 +1768,10 @@ class Interp:
         if isinstance(o, dict):
             if isinstance(k, Sym):
                 raise Unsupported("dict lookup with symbolic key")
-            if k not in o:
+            kk = self.dict_key(o, k)
+            if kk is _MISSING:
                 raise PyRaise(self.make_exc("KeyError", k))
-            return o[k]
+            return o[kk]
         if getattr(o, "_pyvc_native", False) and hasattr(type(o), "__getitem__"):
             try:
                 return o[k]
